@@ -7,9 +7,9 @@ import itertools
 import re
 from typing import Any, Callable, Iterable, Iterator
 
-from ..astutil import (Locals, call_name, calls_in, cfg_of, constructs_error, local_names, names_in, norm, receivers, region, resolved_text,
+from ..astutil import (ERROR_CLASSES, Locals, call_name, calls_in, cfg_of, constructs_error, local_names, names_in, norm, receivers, region, resolved_text,
                        stmt_of, where)
-from ..cfg import CFG, EXIT, walk_own
+from ..cfg import CFG, ENTRY, EXIT, walk_own
 from ..core import Report
 
 LEVEL = ("structural clauses on the region of merge_properties / _process_properties / _process_models, decided on paths (small symbolic "
@@ -21,6 +21,10 @@ LEVEL = ("structural clauses on the region of merge_properties / _process_proper
          "values; requiredness is a disjunction, inline members' `required` lists are unioned on every path and reach every inserted "
          "property; all members contribute (Reference and inline, required and optional properties of a parent); parent properties are "
          "not mutated; every model of a round is processed, re-queued or reported, self-reference is diverted (separator-anchored test). "
+         "Every value that can reach `default=` of a merged copy is None, the copy's own default or the override's default converted "
+         "by the merged property, and a conversion error is returned before the copy is made; get_imports / get_lazy_imports are called "
+         "for each element of an unfiltered iteration over all collected properties on every path of the iteration; no validator of "
+         "Schema moves allOf away from its sibling keywords on a path on which the schema has a type (frozen exception: no type). "
          "The allOf loop, the building loop, the insertions and the promotion of inherited properties are found by what they do, in "
          "_process_properties, a nested function or a helper that is handed its state; variables by role, never by name.")
 
@@ -510,11 +514,24 @@ def run(rep: Report, ctx: Any) -> str:
     rep.rule("R15.4", "parents first: a model that failed is re-queued or reported, never dropped; self reference is diverted to final errors")
     rep.rule("R15.5", "properties inherited from a referenced parent are shared objects and are not mutated while composing a child")
 
+    rep.rule("R15.6", "the default of a merged property is one the merged (narrowed) property accepts, or a diagnostic: every value that can reach "
+                      "`default=` of the merged copy is None, the default the copy already has, or the override's default converted by the "
+                      "merged property itself; a conversion error is returned before the copy is made")
+    rep.rule("R15.7", "every property of the composed model, inherited ones included, contributes what its code needs: get_imports and "
+                      "get_lazy_imports are called on each element of an iteration over all collected properties, on every path of the iteration")
+
+    rep.rule("R15.8", "a composed schema reaches the composition whole: no validator of Schema takes `allOf` away from the keywords written "
+                      "next to it (properties, required) on a path on which the schema has a `type` - such a schema is made nullable through "
+                      "its type; frozen exception: a schema without `type` (see _ALLOF_MOVED_FOR)")
+
     mp = ix.func("merge_properties.merge_properties")
     _merge_rules(rep, ctx, mp)
     _required_and_members(rep, ctx, cfgs)
     check_no_parent_mutation(rep, ctx, "R15.5")
     _parents_first(rep, ctx, cfgs)
+    _merged_default(rep, ctx, cfgs)
+    _imports_of_every_property(rep, ctx, cfgs)
+    _composed_schema_stays_whole(rep, ctx, cfgs)
     return LEVEL
 
 
@@ -1225,16 +1242,20 @@ def _bypasses(cfg: CFG, src: object, dst: object, through: list[Any], adds_what:
 def _required_and_members(rep: Report, ctx: Any, cfgs: dict[str, CFG]) -> None:
     ix = ctx.py
     mca = ix.func("merge_properties._merge_common_attributes")
-    ev_calls = [n for n in ast.walk(mca.node) if isinstance(n, ast.Call) and call_name(n).endswith("evolve") and any(kw.arg == "required" for kw in n.keywords)]
+    # the copy with `required=` is made in _merge_common_attributes or in a helper it hands the accumulated property and one override to
+    ev_calls = [(g, n) for g in region(ix, mca) for n in ast.walk(g.node) if isinstance(n, ast.Call) and call_name(n).endswith("evolve")
+                and any(kw.arg == "required" for kw in n.keywords)]
     rep.require(ev_calls, "required= in _merge_common_attributes")
-    over = {norm(lp.target) for lp in ast.walk(mca.node) if isinstance(lp, ast.For) and norm(lp.iter) == "extend_with"}
-    for c in ev_calls:
+    each = {norm(lp.target) for lp in ast.walk(mca.node) if isinstance(lp, ast.For) and norm(lp.iter) == "extend_with"}  # one override at a time
+    for g, c in ev_calls:
+        over = set(each) if g is mca else {p_ for call in calls_in(mca.node) if call_name(call) == g.name
+                                           for p_, a in (_bind_args(g.node, call) or {}).items() if norm(a) in each}
         kw = next(k for k in c.keywords if k.arg == "required")
         acc = norm(c.args[0]) if c.args else ""
         want = {f"{acc}.required"} | {f"{o}.required" for o in over}
-        ok = _disjuncts(kw.value, Locals(mca.node)) == want and len(want) == 2
+        ok = _disjuncts(kw.value, Locals(g.node)) == want and len(want) == 2
         rep.check(ok, "R15.2", "_merge_common_attributes::required-disjunction", "merged requiredness is not `current.required or override.required`",
-                  where(mca, kw.value), lhs=norm(kw.value), rhs=" or ".join(sorted(want)))
+                  where(g, kw.value), lhs=norm(kw.value), rhs=" or ".join(sorted(want)))
 
     pp = ix.func("model_property._process_properties")
     reg = region(ix, pp)
@@ -1326,6 +1347,303 @@ def _required_and_members(rep: Report, ctx: Any, cfgs: dict[str, CFG]) -> None:
                   and n.attr in ("required_properties", "optional_properties")}
     rep.check(reads == {"required_properties", "optional_properties"}, "R15.3", "_process_properties::parent-required-and-optional",
               "only part of a referenced parent's properties is inherited", where(host, loop), lhs=sorted(reads), rhs="required_properties and optional_properties")
+
+
+# ======================================================================================================================
+# R15.6: the default of a merged property
+# ======================================================================================================================
+
+def _alternatives(e: ast.expr) -> list[ast.expr]:
+    """the expressions whose value e can have: operands of `or`, the two sides of a conditional expression"""
+    if isinstance(e, ast.BoolOp) and isinstance(e.op, ast.Or):
+        return [x for v in e.values for x in _alternatives(v)]
+    if isinstance(e, ast.IfExp):
+        return _alternatives(e.body) + _alternatives(e.orelse)
+    if isinstance(e, ast.NamedExpr):
+        return _alternatives(e.value)
+    return [e]
+
+
+def _leaves(e: ast.expr, g: Any, reg: list[Any], via: frozenset[str] = frozenset(), at: ast.stmt | None = None,
+            depth: int = 4) -> list[tuple[ast.expr, ast.stmt | None, frozenset[str]]]:
+    """where the value of e comes from in function g: (expression, the statement of g that computes it, the locals of g it passes through).
+    Locals are followed to everything they are assigned from (flow-insensitively: all assignments), a call of a function of the
+    region to what that function returns, written in terms of the arguments of the call."""
+    lc = Locals(g.node)
+    out: list[tuple[ast.expr, ast.stmt | None, frozenset[str]]] = []
+    for x in _alternatives(e):
+        if isinstance(x, ast.Name) and x.id in lc.defs and x.id not in via and depth > 0:
+            for kind, st, v in lc.defs[x.id]:
+                if kind == "assign" and isinstance(v, ast.expr):
+                    out += _leaves(v, g, reg, via | {x.id}, st if isinstance(st, ast.stmt) else stmt_of(g.node, st), depth - 1)
+                else:
+                    out.append((x, st if isinstance(st, ast.stmt) else None, via | {x.id}))
+            continue
+        h = next((h for h in reg if isinstance(x, ast.Call) and h.name == call_name(x) and h is not g), None)
+        bound = _bind_args(h.node, x) if h is not None and depth > 0 else None  # type: ignore[arg-type]
+        if h is not None and bound is not None:
+            for r in ast.walk(h.node):
+                if isinstance(r, ast.Return) and r.value is not None:
+                    for leaf, _, _ in _leaves(r.value, h, reg, frozenset(), None, depth - 1):
+                        out.append((_Subst(bound).visit(copy.deepcopy(leaf)), at, via))  # type: ignore[arg-type]
+            continue
+        out.append((x, at, via))
+    return out
+
+
+def _merged_default(rep: Report, ctx: Any, cfgs: dict[str, CFG]) -> None:
+    ix = ctx.py
+    mca = ix.func(f"merge_properties.{MERGE_BASE_FN}")
+    reg = region(ix, mca)
+    sites = [(g, c, kw) for g in reg for c in calls_in(g.node) if call_name(c).rsplit(".", 1)[-1] == "evolve" and c.args
+             for kw in c.keywords if kw.arg == "default"]
+    rep.require(sites, f"evolve(<merged>, default=...) in the region of {MERGE_BASE_FN}")
+    for g, c, kw in sites:
+        cfg = cfg_of(g, cfgs)
+        acc = norm(c.args[0])
+        merged = {acc} | {norm(v) for v in Locals(g.node).values_of(acc) if isinstance(v, ast.Name)}  # `current = base`: the same property
+        ev_stmt = stmt_of(g.node, c)
+        foreign, conversions = [], []
+        for leaf, st, via in _leaves(kw.value, g, reg):
+            if (isinstance(leaf, ast.Constant) and leaf.value is None) or (isinstance(leaf, ast.Attribute) and leaf.attr == "default" and norm(leaf.value) in merged):
+                continue
+            conv = isinstance(leaf, ast.Call) and isinstance(leaf.func, ast.Attribute) and leaf.func.attr == "convert_value" and \
+                norm(leaf.func.value) in merged and bool(leaf.args) and not (names_in(leaf.args[0]) & merged) and \
+                any(isinstance(a, ast.Attribute) and a.attr == "default" for a in ast.walk(leaf.args[0]))
+            if conv or (isinstance(leaf, ast.Call) and constructs_error(leaf)):
+                conversions.append((leaf, st, via))
+            else:
+                foreign.append(norm(leaf)[:70])
+        rep.check(not foreign, "R15.6", f"{g.name}::default-converted-by-merged",
+                  "a default reaches the merged property without being converted by the merged property itself: a default the narrower "
+                  "type does not accept (a member of the larger enum, rendered for the other class) is kept silently",
+                  where(g, c), lhs=sorted(set(foreign)), rhs=f"None | {acc}.default | {acc}.convert_value(<override>.default...)")
+        # a conversion that fails is a diagnostic: the error is returned, the copy is not made with it
+        unreported = []
+        for leaf, st, via in conversions:
+            def is_error_test(e: ast.AST, via: frozenset[str] = via) -> bool:
+                return isinstance(e, ast.Call) and call_name(e) == "isinstance" and len(e.args) == 2 and names_in(e.args[0]) & via != set() and \
+                    bool({norm(t).rsplit(".", 1)[-1] for t in (e.args[1].elts if isinstance(e.args[1], ast.Tuple) else [e.args[1]])} & ERROR_CLASSES)
+
+            def returns_it(n: object, via: frozenset[str] = via) -> bool:
+                return isinstance(n, ast.Return) and n.value is not None and (bool(names_in(n.value) & via) or constructs_error(n.value))
+
+            ok = False
+            for t in ast.walk(g.node):
+                pol = _polarity(t.test, is_error_test) if isinstance(t, ast.If) else None
+                if pol is None or st is None or ev_stmt is None:
+                    continue
+                err_entry, _ = _arm_entries(cfg, t, pol)
+                after = cfg.reachable_from(err_entry, avoid=returns_it) if not returns_it(err_entry) else set()
+                diverted = not any(n is ev_stmt or n is EXIT or isinstance(n, (ast.For, ast.While)) for n in after)
+                guarded = st is t or cfg.every_path_passes(st, ev_stmt, lambda n, t=t: n is t)
+                ok = ok or (diverted and guarded)
+            if not ok:
+                unreported.append(norm(leaf)[:70])
+        rep.check(not unreported, "R15.6", f"{g.name}::conversion-error-returned",
+                  "a default that the merged property rejects is not reported: the error is not returned on every path between the conversion "
+                  "and the merged copy", where(g, c), lhs=sorted(set(unreported)), rhs="if isinstance(<converted>, PropertyError): return <converted>")
+    rep.floor("merged_default_sites", len(sites), 1)
+
+
+# ======================================================================================================================
+# R15.7: every property of the composed model contributes its imports
+# ======================================================================================================================
+
+_SAME_ELEMENTS = ("list", "tuple", "sorted", "reversed", "iter", "chain", "set", "frozenset")  # calls that yield every element of their arguments
+
+
+def _unfiltered_sources(e: ast.AST, lc: Locals, depth: int = 5) -> set[str]:
+    """the collections of which an iteration over e visits every element (nothing filtered out on the way), by name"""
+    if depth == 0:
+        return set()
+    if isinstance(e, ast.Name):
+        ds = lc.defs.get(e.id, [])
+        if len(ds) == 1 and ds[0][0] == "assign" and ds[0][2] is not None:
+            return {e.id} | _unfiltered_sources(ds[0][2], lc, depth - 1)
+        return {e.id}
+    if isinstance(e, ast.Attribute):
+        return {norm(e)}
+    if isinstance(e, (ast.ListComp, ast.SetComp, ast.GeneratorExp)):
+        if len(e.generators) == 1 and not e.generators[0].ifs:
+            return _unfiltered_sources(e.generators[0].iter, lc, depth - 1)
+        return set()
+    if isinstance(e, ast.Call):
+        if isinstance(e.func, ast.Attribute) and e.func.attr in ("values", "copy") and not e.args:
+            return _unfiltered_sources(e.func.value, lc, depth - 1)
+        if call_name(e).rsplit(".", 1)[-1] in _SAME_ELEMENTS:
+            return set().union(*[_unfiltered_sources(a.value if isinstance(a, ast.Starred) else a, lc, depth - 1) for a in e.args]) if e.args else set()
+        return set()
+    if isinstance(e, ast.BinOp) and isinstance(e.op, ast.Add):
+        return _unfiltered_sources(e.left, lc, depth - 1) | _unfiltered_sources(e.right, lc, depth - 1)
+    if isinstance(e, (ast.List, ast.Tuple)):
+        return set().union(*[_unfiltered_sources(x.value, lc, depth - 1) for x in e.elts if isinstance(x, ast.Starred)]) if e.elts else set()
+    return set()
+
+
+def _binder(fn: ast.AST, node: ast.AST, name: str) -> ast.For | ast.comprehension | None:
+    """the innermost loop / comprehension clause around node that binds name"""
+    parents = {id(c): p for p in ast.walk(fn) for c in ast.iter_child_nodes(p)}
+    n = node
+    while id(n) in parents:
+        p = parents[id(n)]
+        if isinstance(p, (ast.For, ast.AsyncFor)) and n is not p.iter and name in names_in(p.target):
+            return p
+        if isinstance(p, (ast.ListComp, ast.SetComp, ast.GeneratorExp, ast.DictComp)):
+            for gen in p.generators:
+                if name in names_in(gen.target) and n is not gen:
+                    return gen
+        n = p
+    return None
+
+
+def _imports_of_every_property(rep: Report, ctx: Any, cfgs: dict[str, CFG]) -> None:
+    ix = ctx.py
+    pp = ix.func("model_property._process_properties")
+    nested = [h for h in ix.all_functions if h.parent is not None and _encloses(pp, h)]
+    funcs = list({f.qual: f for f in [*region(ix, pp), *nested]}.values())
+    # roles: the result (the call that hands back the two property lists and the two import sets), the mapping every property of the
+    # composed model is stored in, the two result lists - each as _process_properties calls them
+    fields = list(ix.cls("_PropertyData").fields)
+    results = [(g, c) for g in funcs for c in _own_nodes(g.node) if isinstance(c, ast.Call) and call_name(c).rsplit(".", 1)[-1] == "_PropertyData"]
+    rep.require(results, "construction of the result (_PropertyData) in the region of _process_properties")
+    role: dict[str, set[str]] = {}
+    for g, c in results:
+        given = {**dict(zip(fields, c.args)), **{kw.arg: kw.value for kw in c.keywords if kw.arg}}
+        for k, v in given.items():
+            role.setdefault(k, set()).update(_in_caller(pp, g, _unfiltered_sources(v, Locals(g.node)) or names_in(v)))
+    rep.floor("composed_result_roles", sum(1 for k in ("required_props", "optional_props", "relative_imports", "lazy_imports") if role.get(k)), 2)
+    lists = [role.get("required_props", set()), role.get("optional_props", set())]
+    storage: set[str] = set()
+    for g in funcs:
+        mine = local_names(g.node) if g.qual != pp.qual else set()
+        for n in _own_nodes(g.node):
+            if _is_store(n, mine):
+                tg = n.targets if isinstance(n, ast.Assign) else [n.target]  # type: ignore[attr-defined]
+                storage |= _in_caller(pp, g, {t.value.id for t in tg if isinstance(t, ast.Subscript) and isinstance(t.value, ast.Name)})
+    rep.require(storage, "the mapping the properties of the composed model are collected in")
+
+    def seen_from_pp(g: Any, sources: set[str]) -> set[str]:
+        """a helper's parameter stands for everything the argument of its call iterates"""
+        if g.qual == pp.qual or _encloses(pp, g):
+            return sources
+        out = set(sources)
+        for h in funcs:
+            for c in calls_in(h.node):
+                if call_name(c).rsplit(".", 1)[-1] == g.name:
+                    bound = _bind_args(g.node, c) or {}
+                    for p_, a in bound.items():
+                        if p_ in sources:
+                            out |= seen_from_pp(h, _unfiltered_sources(a, Locals(h.node))) if h.qual != g.qual else set()
+        return out
+
+    for method, what in (("get_imports", "imports"), ("get_lazy_imports", "lazy-imports")):
+        verdicts: list[tuple[bool, bool, str, Any, ast.AST]] = []
+        for g in funcs:
+            cfg = cfg_of(g, cfgs)
+            for c in _own_nodes(g.node):
+                if not (isinstance(c, ast.Call) and isinstance(c.func, ast.Attribute) and c.func.attr == method and isinstance(c.func.value, ast.Name)):
+                    continue
+                b = _binder(g.node, c, c.func.value.id)
+                if b is None:
+                    continue  # not the element of an iteration (a single extra property, say)
+                sources = seen_from_pp(g, _unfiltered_sources(b.iter, Locals(g.node)))
+                covers = bool(sources & storage) or (all(lists) and all(l_ & sources for l_ in lists))
+                if isinstance(b, ast.comprehension):
+                    always = not b.ifs
+                else:
+                    s = stmt_of(g.node, c)
+                    inside = {id(x) for x in ast.walk(b)}
+                    skipping = cfg.reachable_from(b.body[0], avoid=lambda n, s=s: n is s) if b.body[0] is not s else set()
+                    # the next element is reached, or the loop is left for good, without the call (an error return ends everything)
+                    always = s is not None and not any(n is b or (n is not EXIT and id(n) not in inside) for n in skipping)
+                verdicts.append((covers, always, norm(b.iter)[:60], g, c))
+        ok = any(cv and al for cv, al, _, _, _ in verdicts)
+        at = where(verdicts[0][3], verdicts[0][4]) if verdicts else where(pp, pp.node)
+        rep.check(ok, "R15.7", f"_process_properties::every-property-{what}",
+                  f"{method}() is not called for every property of the composed model (all collected properties, on every path of the "
+                  "iteration): a property taken over from a parent, or one kind of property, contributes no import and the generated "
+                  "module fails with NameError when that property is used", at,
+                  lhs=[{"over": it_, "all_properties": cv, "on_every_path": al} for cv, al, it_, _, _ in verdicts],
+                  rhs="an iteration over all collected properties that calls it unconditionally")
+
+
+# ======================================================================================================================
+# R15.8: the schema layer does not take a composition apart
+# ======================================================================================================================
+
+# confirmed exceptions, frozen (shape of the schema -> why allOf may be moved away from its sibling keywords there), one reason per line
+_ALLOF_MOVED_FOR = {
+    "no type": "upstream reads `nullable` + allOf without a `type` as oneOf[null, Schema(allOf=...)]: `properties` / `required` written next "
+               "to the allOf stay on the outer (now union) schema and are lost - a defect of /repo itself, reported, not decided here",
+}
+_TYPED_SHAPES = {"type is a string": ("str", "list"), "type is a list": ("list", "str")}
+
+
+def _reachable_under(cfg: CFG, env: dict[str, bool], store: dict[str, ast.expr | None]) -> set[object]:
+    """the statements that can be executed when the given atoms have the given truth values (other atoms are free): a decision whose test
+    cannot have an outcome does not go that way, whatever the order or nesting of the decisions"""
+    seen: set[object] = {ENTRY}
+    stack: list[object] = [ENTRY]
+    while stack:
+        n = stack.pop()
+        closed: set[int] = set()
+        if isinstance(n, ast.If):
+            t_entry, f_entry = _arm_entries(cfg, n, True)
+            if t_entry is not f_entry:
+                possible = _values_of_test(n.test, env, store)
+                closed = {id(e) for v, e in ((True, t_entry), (False, f_entry)) if v not in possible}
+        for nx in cfg.succ.get(n, ()):
+            if id(nx) not in closed and nx not in seen:
+                seen.add(nx)
+                stack.append(nx)
+    return seen
+
+
+def _composed_schema_stays_whole(rep: Report, ctx: Any, cfgs: dict[str, CFG]) -> None:
+    ix = ctx.py
+    sch = ix.cls("Schema")
+    n_moves = 0
+    for m in sch.methods.values():
+        pos = [*m.node.args.posonlyargs, *m.node.args.args]
+        if not pos or m.kind in ("staticmethod", "classmethod"):
+            continue
+        me = pos[0].arg
+
+        def of_me(t: ast.AST, me: str = me) -> bool:
+            return isinstance(t, ast.Attribute) and t.attr == "allOf" and isinstance(t.value, ast.Name) and t.value.id == me
+
+        moves = []
+        for st in ast.walk(m.node):
+            if isinstance(st, (ast.Assign, ast.AugAssign, ast.AnnAssign, ast.Delete)):
+                tg = st.targets if isinstance(st, (ast.Assign, ast.Delete)) else [st.target]
+                if any(of_me(x) for t in tg for x in ast.walk(t) if isinstance(getattr(x, "ctx", None), (ast.Store, ast.Del))):
+                    moves.append(st)
+            elif isinstance(st, ast.Expr) and isinstance(st.value, ast.Call) and isinstance(st.value.func, ast.Attribute) and \
+                    st.value.func.attr in ("clear", "pop", "remove") and of_me(st.value.func.value):
+                moves.append(st)
+        if not moves:
+            continue
+        n_moves += len(moves)
+        cfg = cfg_of(m, cfgs)
+        lc = Locals(m.node)
+        store: dict[str, ast.expr | None] = {n: ds[0][2] for n, ds in lc.defs.items()
+                                              if len(ds) == 1 and ds[0][0] == "assign" and isinstance(ds[0][2], ast.expr)}
+        taken = []
+        type_tests = [r for c in calls_in(m.node) if call_name(c) == "isinstance" and len(c.args) == 2
+                      for r in [_resolve(c, _State(store))] if isinstance(r, ast.Call) and norm(r.args[0]) == f"{me}.type"]
+        for shape, (yes, no) in _TYPED_SHAPES.items():
+            env = {f"isinstance({me}.type, {yes})": True, f"isinstance({me}.type, {no})": False, f"{me}.type is None": False,
+                   f"{me}.type == None": False, f"{me}.type": True}
+            for r in type_tests:  # whatever classes a test names, alone or in a tuple
+                env[norm(r)] = yes in {norm(t) for t in (r.args[1].elts if isinstance(r.args[1], ast.Tuple) else [r.args[1]])}
+            can = _reachable_under(cfg, env, store)
+            taken += [f"{shape}: {norm(st)[:50]}" for st in moves if st in can]
+        rep.check(not taken, "R15.8", f"Schema.{m.name}::allOf-stays-with-typed-schema",
+                  "a schema that has a `type` loses its allOf to a nested schema: the properties and `required` written next to the allOf are "
+                  "no longer part of the composition (they are silently dropped from the composed model)", where(m, moves[0]),
+                  lhs=taken, rhs=f"allOf is moved only for: {sorted(_ALLOF_MOVED_FOR)}")
+    rep.floor("allOf_moved_by_schema_validators", n_moves, 1)
 
 
 # ======================================================================================================================
@@ -1455,7 +1773,7 @@ def _parents_first(rep: Report, ctx: Any, cfgs: dict[str, CFG]) -> None:
               where(pp, pp.node))
 
 
-def _values_of_test(test: ast.expr, env: dict[str, bool]) -> set[bool]:
-    """the truth values a test can take when the given atoms have the given values (other atoms are free)"""
+def _values_of_test(test: ast.expr, env: dict[str, bool], store: dict[str, ast.expr | None] | None = None) -> set[bool]:
+    """the truth values a test can take when the given atoms have the given values (other atoms are free; `store`: what locals hold)"""
     ex = SymExec(ast.parse("def _():\n    pass").body[0], env)  # type: ignore[arg-type]
-    return {v for v, _ in ex._truth(test, _State())}
+    return {v for v, _ in ex._truth(test, _State(store))}
